@@ -7,6 +7,7 @@ export VERIF_SEED="$1"; filter="$2"
 for d in seeded/*/; do
   id=$(basename "$d")
   if [ -n "$filter" ] && [[ "$id" != *$filter* ]]; then continue; fi
+  if python3 -c "import json,sys;sys.exit(0 if json.load(open('$d/meta.json')).get('obsolete_since') else 1)"; then echo "seed=$VERIF_SEED $id skipped (obsolete: see meta.json)"; continue; fi
   checks=$(python3 -c "import json;print(' '.join(json.load(open('$d/meta.json'))['detected_by']))")
   out=$(timeout 3000 tools/seedtest.sh /verif/$d/patch.diff $checks 2>&1 | grep -E "^== C[0-9]+ exit=" | tr '\n' ' ')
   hit=no; [[ "$out" == *"exit=1"* ]] && hit=yes
